@@ -168,13 +168,104 @@ pub fn set_spec(cfg: GenCfg) -> impl Strategy<Value = SetSpec> {
 
 /// small TileJSON-like metadata documents (the rich generator lives in the C17 check)
 pub fn meta_doc() -> impl Strategy<Value = String> {
-	("[a-zA-Z0-9 _-]{0,12}", "[a-zA-Z0-9 ,.;:!?äöü€-]{0,30}", proptest::option::of("[a-z]{1,8}")).prop_map(|(name, desc, attribution)| {
+	("[a-zA-Z0-9 _-]{0,12}", "[a-zA-Z0-9 ,.;:!?äöü€/-]{0,30}", proptest::option::of("[a-z]{1,8}"), prop_oneof![3 => Just(0u32), 2 => 1u32..]).prop_map(|(name, desc, attribution, spell)| {
 		let mut o = serde_json::Map::new();
 		o.insert("name".into(), serde_json::Value::String(name));
 		o.insert("description".into(), serde_json::Value::String(desc));
 		if let Some(a) = attribution {
 			o.insert("attribution".into(), serde_json::Value::String(a));
 		}
-		serde_json::Value::Object(o).to_string()
+		if spell % 4 == 2 {
+			// enough entries for a text beyond 4 and 8 KiB once the white space is added
+			o.insert("tilejson".into(), serde_json::Value::String("3.0.0".into()));
+			o.insert("legend".into(), serde_json::Value::Array((0..40).map(|i| serde_json::Value::String(format!("entry {i}"))).collect()));
+		}
+		respell(&serde_json::Value::Object(o).to_string(), spell)
 	})
 }
+
+/// The same JSON text as another writer might spell it (RFC 8259 allows all of it): generated
+/// runs of white space around the structural characters (style bit 0: up to 12, bit 1: up to 150
+/// characters, so that documents grow beyond 4 and 8 KiB), `\uXXXX` escapes with upper- or
+/// lower-case hex digits for some characters of the Basic Multilingual Plane, `\/` for `/`.
+/// Characters outside the BMP stay literal (the repository's tests pin the rejection of
+/// surrogate-pair escapes).
+pub fn respell(text: &str, seed: u32) -> String {
+	if seed == 0 {
+		return text.to_string();
+	}
+	let mut m = crate::model::Mix::new(seed as u64 ^ 0x5be11);
+	let ws_max = match seed % 4 {
+		0 => 0,
+		1 => 12,
+		2 => 150,
+		_ => 40,
+	};
+	let escapes = (seed >> 2) % 3; // 0 none, 1 lower-case hex, 2 upper-case hex
+	let mut out = String::with_capacity(text.len() * 2);
+	let ws = |out: &mut String, m: &mut crate::model::Mix| {
+		if ws_max > 0 {
+			let n = m.below(ws_max + 1);
+			let c = [" ", "\n", "\t", "\r\n", " "][m.below(5) as usize];
+			for _ in 0..n {
+				out.push_str(if m.below(4) == 0 { c } else { " " });
+			}
+		}
+	};
+	let mut in_str = false;
+	let mut it = text.chars().peekable();
+	while let Some(c) = it.next() {
+		if in_str {
+			match c {
+				'\\' => {
+					out.push(c);
+					if let Some(n) = it.next() {
+						out.push(n);
+						if n == 'u' {
+							for _ in 0..4 {
+								if let Some(h) = it.next() {
+									out.push(h);
+								}
+							}
+						}
+					}
+				}
+				'"' => {
+					in_str = false;
+					out.push(c);
+				}
+				'/' if escapes > 0 && m.below(3) == 0 => out.push_str("\\/"),
+				c if escapes > 0 && (c as u32) < 0x10000 && (c as u32 >= 0x80 || c.is_ascii_alphabetic()) && m.below(if (c as u32) < 0x80 { 12 } else { 2 }) == 0 => {
+					if escapes == 1 {
+						out.push_str(&format!("\\u{:04x}", c as u32));
+					} else {
+						out.push_str(&format!("\\u{:04X}", c as u32));
+					}
+				}
+				c => out.push(c),
+			}
+		} else {
+			match c {
+				'"' => {
+					in_str = true;
+					out.push(c);
+				}
+				'{' | '[' | ',' | ':' => {
+					out.push(c);
+					ws(&mut out, &mut m);
+				}
+				'}' | ']' => {
+					ws(&mut out, &mut m);
+					out.push(c);
+				}
+				c if c.is_ascii_whitespace() => {}
+				c => out.push(c),
+			}
+		}
+	}
+	let mut lead = String::new();
+	ws(&mut lead, &mut m);
+	ws(&mut out, &mut m);
+	lead + &out
+}
+
